@@ -247,6 +247,15 @@ def c12_x2(F, X, rep, b):
                             good = True
                             why = "None arm of a checked op"
                         if cnd.kind == "cmp":
+                            # `amount * ppm > u64::MAX` computed in a wider type: the same event as checked_mul == None
+                            ea_, eb_ = strip(X.operand(b, cnd.a)), strip(X.operand(b, cnd.b))
+                            o3 = cnd.op if truth else {"Lt": "Ge", "Le": "Gt", "Gt": "Le", "Ge": "Lt", "Eq": "Ne", "Ne": "Eq"}[cnd.op]
+                            prod = ("mul", tuple(sorted([("leaf", "amount"), ("leaf", "fee_proportional_millionths")], key=repr)))
+                            for big, lim, o4 in ((ea_, eb_, o3), (eb_, ea_, {"Gt": "Lt", "Lt": "Gt", "Ge": "Le", "Le": "Ge"}.get(o3, o3))):
+                                pl_ = _peel(lim)
+                                if norm(big, roles) == prod and pl_[0] == "const" and pl_[2] == 2 ** 64 - 1 and o4 == "Gt":
+                                    good = True
+                                    why = "amount*ppm exceeds u64::MAX (the checked product would be None)"
                             ka, kb = lib.operand_key(b, cnd.a), lib.operand_key(b, cnd.b)
                             o2 = cnd.op if truth else {"Lt": "Ge", "Le": "Gt", "Gt": "Le", "Ge": "Lt", "Eq": "Ne", "Ne": "Eq"}[cnd.op]
                             kt, km = ("place", total_i), ("place", amount_i)
